@@ -5,7 +5,13 @@ set -u
 VERIF_DIR="${VERIF_DIR:-/verif}"
 ALL=0; [ "${1:-}" = "--all" ] && { ALL=1; shift; }
 FILTER="${1:-}"
-if [ -n "$(git -C /repo status --porcelain)" ]; then echo "refusing: /repo not clean"; exit 2; fi
+# Work in a scratch worktree of /repo's HEAD (removed at the end); /repo itself is never touched.
+SCRATCH="${SIM_SCRATCH:-/tmp/simscratch-$$}"
+git -C /repo worktree add -q --detach "$SCRATCH" HEAD || { echo "cannot create scratch worktree"; exit 2; }
+cp /repo/Cargo.lock "$SCRATCH/Cargo.lock" 2>/dev/null
+export SIM_REPO="$SCRATCH"
+cleanup() { git -C /repo worktree remove --force "$SCRATCH" 2>/dev/null; rm -rf "/tmp/simshadow/$(printf %s "$SCRATCH" | tr -c 'A-Za-z0-9' _)"; }
+trap cleanup EXIT INT TERM
 mkdir -p "$VERIF_DIR/sim/target/sens"
 missed=0
 for d in "$VERIF_DIR"/seeded/*/; do
@@ -13,7 +19,7 @@ for d in "$VERIF_DIR"/seeded/*/; do
     case "$n" in *"$FILTER"*) ;; *) continue ;; esac
     prop=$(python3 -c "import json,sys; print(json.load(open('$d/meta.json'))['breaks_property'])")
     props="$prop"; [ "$ALL" = 1 ] && props="C01 C10 C11 C17 C18"
-    git -C /repo apply "$d/patch.diff" || { echo "$n: patch does not apply"; missed=$((missed+1)); continue; }
+    git -C "$SCRATCH" apply "$d/patch.diff" || { echo "$n: patch does not apply"; missed=$((missed+1)); continue; }
     for p in $props; do
         t0=$(date +%s)
         SIM_NO_EVIDENCE=1 "$VERIF_DIR/check" "$p" quick >"$VERIF_DIR/sim/target/sens/seeded-$n-$p.out" 2>&1; rc=$?
@@ -22,7 +28,7 @@ for d in "$VERIF_DIR"/seeded/*/; do
         if [ "$rc" = 1 ]; then verdict="CAUGHT"; else verdict="quiet(rc=$rc)"; [ "$p" = "$prop" ] && missed=$((missed+1)); fi
         printf '%-6s %-4s %-12s %3ss  %s\n' "$n" "$p" "$verdict" "$((t1-t0))" "$cls"
     done
-    git -C /repo checkout -- .
+    git -C "$SCRATCH" checkout -- .
 done
 rm -f "$VERIF_DIR"/replays/*.json
 echo "missed: $missed"
